@@ -80,14 +80,13 @@ def same_functions(acc, site, case, c, r, extra_ok=True):
     return True
 
 
-def check_fanin(acc, desc, k, site):
+def check_fanin(acc, desc, k, site, variant=None):
     import circuitgraph as cg
 
-    case = {"kind": "fanin", "desc": desc, "k": k, "site": site}
-    c = space.build(desc)
+    case = {"kind": "fanin", "desc": desc, "k": k, "site": site, "variant": variant}
     acc.transitions += 1
     try:
-        r = cg.tx.limit_fanin(c, k)
+        c, r = space.call_with_history(desc, lambda x: cg.tx.limit_fanin(x, k), variant)
     except Exception as e:  # noqa: BLE001
         acc.violation(site, f"limit_fanin-raises:{common.exc_name(e)}", case, repr(e))
         return False
@@ -150,6 +149,10 @@ def run_fanin_gen(job, acc):
             acc.states += 1
             if check_fanin(acc, desc, k, "fanin-gen"):
                 acc.nontrivial += 1
+            if (_idx // job["of"]) % 4 == 0:
+                for v in space.VARIANTS[1:]:
+                    acc.states += 1
+                    check_fanin(acc, desc, k, "fanin-gen", variant=v)
         acc.sample({"desc": desc})
 
 
@@ -219,14 +222,13 @@ def fanout_series():
         yield {"name": "top", "nodes": nodes}
 
 
-def check_fanout(acc, desc, k):
+def check_fanout(acc, desc, k, variant=None):
     import circuitgraph as cg
 
-    case = {"kind": "fanout", "desc": desc, "k": k}
-    c = space.build(desc)
+    case = {"kind": "fanout", "desc": desc, "k": k, "variant": variant}
     acc.transitions += 1
     try:
-        r = cg.tx.limit_fanout(c, k)
+        c, r = space.call_with_history(desc, lambda x: cg.tx.limit_fanout(x, k), variant)
     except Exception as e:  # noqa: BLE001
         acc.violation("fanout", f"limit_fanout-raises:{common.exc_name(e)}", case, repr(e))
         return False
@@ -249,6 +251,10 @@ def run_fanout(job, acc):
             acc.states += 1
             if check_fanout(acc, desc, k):
                 acc.nontrivial += 1
+            if (_idx // job["of"]) % 4 == 0 and k <= 3:
+                for v in space.VARIANTS[1:]:
+                    acc.states += 1
+                    check_fanout(acc, desc, k, variant=v)
         acc.sample({"desc": desc})
 
 
@@ -267,18 +273,17 @@ def depth_of(c):
     return max(d(n) for n in g.nodes)
 
 
-def check_registers(acc, desc, stages):
+def check_registers(acc, desc, stages, variant=None):
     import circuitgraph as cg
 
-    case = {"kind": "registers", "desc": desc, "num_stages": stages}
-    c = space.build(desc)
-    md = depth_of(c)
+    case = {"kind": "registers", "desc": desc, "num_stages": stages, "variant": variant}
+    md = depth_of(space.build(desc))
     inc = round(md / (stages + 1))
     if inc < 1 or not list(range(inc, md, inc)):
         return None  # no stage boundary exists: outside the property's quantifier
     acc.transitions += 1
     try:
-        r = cg.tx.insert_registers(c, stages)
+        c, r = space.call_with_history(desc, lambda x: cg.tx.insert_registers(x, stages), variant)
     except Exception as e:  # noqa: BLE001
         acc.violation("registers", f"raises:{common.exc_name(e)}", case, repr(e))
         return None
@@ -357,20 +362,23 @@ def run_registers(job, acc):
             acc.states += 1
             if r:
                 acc.nontrivial += 1
+            if (_idx // job["of"]) % 4 == 0:
+                for v in space.VARIANTS[1:]:
+                    acc.states += 1
+                    check_registers(acc, desc, st, variant=v)
         acc.sample({"desc": desc})
 
 
 # --- acyclic_unroll on acyclic circuits -------------------------------------------------------------
 
 
-def check_acyclic(acc, desc):
+def check_acyclic(acc, desc, variant=None):
     import circuitgraph as cg
 
-    case = {"kind": "acyclic", "desc": desc}
-    c = space.build(desc)
+    case = {"kind": "acyclic", "desc": desc, "variant": variant}
     acc.transitions += 1
     try:
-        r = cg.tx.acyclic_unroll(c)
+        c, r = space.call_with_history(desc, cg.tx.acyclic_unroll, variant)
     except Exception as e:  # noqa: BLE001
         acc.violation("acyclic", f"raises:{common.exc_name(e)}", case, repr(e))
         return
@@ -409,6 +417,10 @@ def run_acyclic(job, acc):
         acc.states += 1
         acc.nontrivial += 1
         check_acyclic(acc, desc)
+        if (_idx // job["of"]) % 4 == 0:
+            for v in space.VARIANTS[1:]:
+                acc.states += 1
+                check_acyclic(acc, desc, variant=v)
         acc.sample({"desc": desc})
 
 
@@ -473,13 +485,13 @@ def replay(case, job):
     acc = Acc(job)
     k = case["kind"]
     if k == "fanin":
-        check_fanin(acc, case["desc"], case["k"], case.get("site", "fanin-wide"))
+        check_fanin(acc, case["desc"], case["k"], case.get("site", "fanin-wide"), variant=case.get("variant"))
     elif k == "fanout":
-        check_fanout(acc, case["desc"], case["k"])
+        check_fanout(acc, case["desc"], case["k"], variant=case.get("variant"))
     elif k == "registers":
-        check_registers(acc, case["desc"], case["num_stages"])
+        check_registers(acc, case["desc"], case["num_stages"], variant=case.get("variant"))
     elif k == "chain":
         check_chain(acc, case["desc"], case["steps"])
     else:
-        check_acyclic(acc, case["desc"])
+        check_acyclic(acc, case["desc"], variant=case.get("variant"))
     return acc.result()
